@@ -2,7 +2,7 @@
    the order on muxer states and the notion of an annotated operation sequence.
    Definitions only; proofs are in HlsInvProofs.v. *)
 From Coq Require Import ZArith Bool List.
-From Lal Require Import Common.LBytes Hls.HlsFloat Hls.HlsFs Hls.HlsPlaylist Hls.HlsMuxer Hls.HlsConsistent.
+From Lal Require Import Common.LBytes Hls.HlsFloat Hls.HlsFs Hls.HlsPlaylist Hls.HlsParse Hls.HlsMuxer Hls.HlsConsistent.
 Open Scope Z_scope.
 
 (* number of fragments closed so far = id of the next / the open fragment *)
@@ -20,7 +20,7 @@ Definition slot_is (c : cfg) (m : mux) (k i : Z) : Prop :=
   fi_id (sl c m k) = i /\ fi_named (sl c m k) = true /\ fi_now (sl c m k) = hnow m i.
 
 Record Inv (c : cfg) (m : mux) (s : fs) : Prop := mkInv {
-  inv_cfg : 1 <= c_num c /\ 0 <= c_thr c /\ 0 <= c_ms c <= 2 ^ 35;
+  inv_cfg : 1 <= c_num c /\ 0 <= c_thr c /\ 0 <= c_ms c <= 2 ^ 35 /\ stream_ok (c_stream c);
   inv_cnt : 0 <= m_frag m /\ 0 <= m_nfrags m <= c_num c /\ (m_nfrags m < c_num c -> m_frag m = 0);
   inv_len : length (m_frags m) = Z.to_nat (cap c);
   inv_hist : Z.of_nat (length (m_hist m)) = nclosed m + b2z (m_opened m);
@@ -64,7 +64,7 @@ Inductive chain (c : cfg) : mux -> fs -> list op -> mux -> Prop :=
     mle m m1 -> nclosed m1 = nclosed m -> Inv c m1 s -> chain c m1 s ops m2 -> chain c m s ops m2.
 
 (* configurations the theorems are about *)
-Definition cfg_ok (c : cfg) : Prop := 1 <= c_num c /\ 0 <= c_thr c /\ 0 <= c_ms c <= 2 ^ 35.
+Definition cfg_ok (c : cfg) : Prop := 1 <= c_num c /\ 0 <= c_thr c /\ 0 <= c_ms c <= 2 ^ 35 /\ stream_ok (c_stream c).
 
 (* ---- well-formed histories ---- *)
 Inductive phase := Clean | Alive (ready : bool) | Dirty.
